@@ -19,6 +19,7 @@ class Contract:
         self.requires = list(kw.pop("requires", []))
         self.variant_requires = dict(kw.pop("variant_requires", {}))
         self.ensures = list(kw.pop("ensures", []))
+        self.variant_ensures = dict(kw.pop("variant_ensures", {}))   # extra postconditions per variant
         self.raises = list(kw.pop("raises", []))  # (ExceptionClass, "when clause")
         self.returns = kw.pop("returns", None)
         self.loops = dict(kw.pop("loops", {}))
